@@ -489,7 +489,7 @@ static type_id* tag_ids() {
 }
 
 const char* idflavour_name(int f) {
-    static const char* n[] = {"small-int", "typeid-pointer", "stride", "high-bits", "random64", "low-bit-aliases"};
+    static const char* n[] = {"small-int", "typeid-pointer", "stride", "high-bits", "random64", "low-bit-aliases", "small-int-aliases"};
     return n[f];
 }
 
@@ -536,6 +536,9 @@ void assign_ids(Rng& rng, Registry& r, int flavour, int aliases) {
                 break;
             case 5:
                 id = ((base + (uint64_t)c * 977) << 2) | (uint64_t)a;
+                break;
+            case 6: // small integers: (a permutation of the classes) * 4 + alias
+                id = ((uint64_t)perm[c % 64] << 2) | (uint64_t)a;
                 break;
             }
             if (seen.count(id)) { // keep ids unique per class
